@@ -33,9 +33,16 @@ def _txt(node):
     return ast.unparse(node)
 
 
+def _is_self_samplers(e):
+    return isinstance(e, ast.Attribute) and e.attr == "samplers" and isinstance(e.value, ast.Name) and e.value.id == "self"
+
+
 class FuncScan:
-    def __init__(self, qual, fn, is_setter):
+    def __init__(self, qual, fn, is_setter, sampler_class=False, sampler_params=()):
         self.qual, self.fn, self.is_setter = qual, fn, is_setter
+        self.sampler_class = sampler_class      # the enclosing class keeps its block samplers in `self.samplers`
+        self.sprov = {p: True for p in sampler_params}   # local names bound ONLY to elements of self.samplers
+        self.callsites = []                      # (method name, [argument is a sampler element?]) for self.m(...) calls
         self.facts = []
         a = fn.args
         self.params = {x.arg for x in a.posonlyargs + a.args + a.kwonlyargs}
@@ -48,6 +55,22 @@ class FuncScan:
             self.bind[p] = "alias"
         if self.kwdict:
             self.bind[self.kwdict] = "fresh"     # a **kwargs dict is created per call
+
+    # ---- provenance: "this expression is one of the sampler objects held in self.samplers" ---------------------------------
+    def is_sampler_expr(self, e):
+        if not self.sampler_class:
+            return False
+        if isinstance(e, ast.Subscript) and _is_self_samplers(e.value):
+            return True
+        if isinstance(e, ast.Call) and isinstance(e.func, ast.Attribute) and e.func.attr == "get" and _is_self_samplers(e.func.value):
+            return True
+        if isinstance(e, ast.Name):
+            return self.sprov.get(e.id, False)
+        return False
+
+    def note_sampler_binding(self, name, is_sampler):
+        if self.sampler_class:
+            self.sprov[name] = is_sampler and self.sprov.get(name, True)
 
     # ---- freshness of an expression -------------------------------------------------------------------------------
     def fresh_expr(self, e):
@@ -93,6 +116,7 @@ class FuncScan:
     # ---- statements ---------------------------------------------------------------------------------------------------
     def bind_target(self, tgt, value):
         if isinstance(tgt, ast.Name):
+            self.note_sampler_binding(tgt.id, self.is_sampler_expr(value))
             k = "fresh" if self.fresh_expr(value) else "alias"
             # a name is fresh only if EVERY binding in the function is fresh
             if tgt.id in self.bind and self.bind[tgt.id] != k and tgt.id not in self.params:
@@ -103,6 +127,7 @@ class FuncScan:
         elif isinstance(tgt, (ast.Tuple, ast.List)):
             for el in tgt.elts:
                 if isinstance(el, ast.Name):
+                    self.note_sampler_binding(el.id, False)
                     self.bind[el.id] = "fresh" if isinstance(value, ast.Call) and self.fresh_expr(value) else "alias"
                 elif isinstance(el, ast.Starred):
                     raise Unsupported("%s: starred assignment target" % self.qual)
@@ -112,7 +137,10 @@ class FuncScan:
             self.store(tgt, value)
 
     def store(self, tgt, value):
-        if isinstance(tgt, ast.Attribute):
+        if isinstance(tgt, ast.Attribute) and self.is_sampler_expr(tgt.value):
+            # re-binding an attribute OF a sampler object held by this Gibbs object: modifies that sampler object only
+            self.fact("sampler-attr", _txt(tgt))
+        elif isinstance(tgt, ast.Attribute):
             rk = self.receiver_kind(tgt.value)
             if rk == "self":
                 in_init = self.fn.name == "__init__"
@@ -158,6 +186,10 @@ class FuncScan:
                 raise Unsupported("%s: augmented assignment to %s" % (self.qual, type(t).__name__))
         elif isinstance(s, (ast.For, ast.AsyncFor)):
             self.bind_target(s.target, ast.Name(id="__iter_element__", ctx=ast.Load()))
+            it = s.iter
+            if (self.sampler_class and isinstance(s.target, ast.Name) and isinstance(it, ast.Call) and isinstance(it.func, ast.Attribute)
+                    and it.func.attr == "values" and _is_self_samplers(it.func.value)):
+                self.sprov[s.target.id] = True      # for sampler in self.samplers.values()
         elif isinstance(s, (ast.With, ast.AsyncWith)):
             for it in s.items:
                 if it.optional_vars is not None:
@@ -191,6 +223,10 @@ class FuncScan:
             raise Unsupported("%s: __dict__ access" % self.qual)
         if isinstance(node, ast.Call):
             f = node.func
+            if isinstance(f, ast.Attribute) and isinstance(f.value, ast.Name) and f.value.id == "self" and not node.keywords:
+                self.callsites.append((f.attr, [self.is_sampler_expr(a) for a in node.args]))
+            elif isinstance(f, ast.Attribute) and isinstance(f.value, ast.Name) and f.value.id == "self":
+                self.callsites.append((f.attr, None))      # keyword call: no provenance claimed
             if isinstance(f, ast.Name):
                 if f.id in ("exec", "eval", "delattr", "globals", "locals"):
                     raise Unsupported("%s: call of %s" % (self.qual, f.id))
@@ -216,29 +252,66 @@ def extract(repo):
         files.append(rel)
         tree = ast.parse(open(path).read(), filename=path)
 
+        def scan_func(node, prefix, sampler_class, sparams):
+            is_setter = any(isinstance(d, ast.Attribute) and d.attr == "setter" for d in node.decorator_list)
+            out, errs, calls = [], [], []
+            fs = FuncScan(prefix + node.name, node, is_setter, sampler_class, sparams.get(node.name, ()))
+            try:
+                for st in node.body:
+                    fs.visit_stmt(st)
+            except Unsupported as e:
+                errs.append(str(e))
+            out.extend(fs.facts)
+            calls.extend(fs.callsites)
+            for sub in ast.walk(node):       # nested functions
+                if sub is not node and isinstance(sub, (ast.FunctionDef, ast.AsyncFunctionDef)):
+                    fs2 = FuncScan(prefix + node.name + "." + sub.name, sub, False)
+                    try:
+                        for st in sub.body:
+                            fs2.visit_stmt(st)
+                    except Unsupported as e:
+                        errs.append(str(e))
+                    out.extend(fs2.facts)
+            return out, errs, calls
+
+        def scan_class(cls, prefix):
+            methods = [n for n in cls.body if isinstance(n, (ast.FunctionDef, ast.AsyncFunctionDef))]
+            # a class that stores `self.samplers` keeps its block samplers there (HybridGibbs, Gibbs)
+            sampler_class = any(isinstance(t, ast.Attribute) and _is_self_samplers(t)
+                                for m in methods for st in ast.walk(m) if isinstance(st, ast.Assign) for t in st.targets)
+            sparams = {}
+            for _ in range(4 if sampler_class else 1):      # parameters that receive a sampler element at EVERY call site
+                allcalls = []
+                for m in methods:
+                    allcalls += scan_func(m, prefix + cls.name + ".", sampler_class, sparams)[2]
+                newp = {}
+                for m in methods:
+                    pos = [a.arg for a in m.args.posonlyargs + m.args.args][1:]
+                    sites = [c for c in allcalls if c[0] == m.name]
+                    if not sites or any(args is None for _, args in sites):
+                        continue
+                    good = [p for i, p in enumerate(pos) if all(i < len(args) and args[i] for _, args in sites)]
+                    if good:
+                        newp[m.name] = tuple(good)
+                if newp == sparams:
+                    break
+                sparams = newp
+            for m in methods:
+                out, errs, _ = scan_func(m, prefix + cls.name + ".", sampler_class, sparams)
+                facts.extend(out)
+                errors.extend(errs)
+            for n in cls.body:
+                if isinstance(n, ast.ClassDef):
+                    scan_class(n, prefix + cls.name + ".")
+
         def scan_body(body, prefix):
             for node in body:
                 if isinstance(node, ast.ClassDef):
-                    scan_body(node.body, prefix + node.name + ".")
+                    scan_class(node, prefix)
                 elif isinstance(node, (ast.FunctionDef, ast.AsyncFunctionDef)):
-                    is_setter = any(isinstance(d, ast.Attribute) and d.attr == "setter" for d in node.decorator_list)
-                    fs = FuncScan(prefix + node.name, node, is_setter)
-                    try:
-                        for s in node.body:
-                            fs.visit_stmt(s)
-                    except Unsupported as e:
-                        errors.append(str(e))
-                    facts.extend(fs.facts)
-                    # nested functions
-                    for sub in ast.walk(node):
-                        if sub is not node and isinstance(sub, (ast.FunctionDef, ast.AsyncFunctionDef)):
-                            fs2 = FuncScan(prefix + node.name + "." + sub.name, sub, False)
-                            try:
-                                for s in sub.body:
-                                    fs2.visit_stmt(s)
-                            except Unsupported as e:
-                                errors.append(str(e))
-                            facts.extend(fs2.facts)
+                    out, errs, _ = scan_func(node, prefix, False, {})
+                    facts.extend(out)
+                    errors.extend(errs)
                 elif isinstance(node, (ast.Try, ast.If)):
                     scan_body(node.body, prefix)
                     for h in getattr(node, "handlers", []):
@@ -309,7 +382,7 @@ def generate(repo, compile_it=True):
     return res
 
 
-GENERIC_KINDS = {"aug-local-fresh", "aug-attr-fresh", "aug-sub-fresh", "fresh-attr", "fresh-sub", "mutcall-fresh", "fresh-setattr",
+GENERIC_KINDS = {"sampler-attr", "aug-local-fresh", "aug-attr-fresh", "aug-sub-fresh", "fresh-attr", "fresh-sub", "mutcall-fresh", "fresh-setattr",
                  "self-attr-init", "self-attr-setter"}
 
 
